@@ -26,8 +26,9 @@ CLAIMS = {
     "C04": _c(
         "Static analysis of VmData::simplify: exactly one choice consumed per choice op on every structured path "
         "(including the inactive-skip path), Left/Right/Both continue with the first/second/both operands, every surviving "
-        "op renames its output and all register operands, order parity of tape and choice walks, op accounting counts "
-        "every output, result shares the parent's variable map.",
+        "op renames its output and all register operands (a kept operand is copied from its remapped register or aliased to "
+        "the new index), order parity of tape and choice walks, op accounting counts every output, result shares the parent's "
+        "variable map; interval min/max choices are Left/Right only for strictly separated operands.",
         "static analysis: path/pairing and role-consistency lint over simplify's match arms",
     ),
     "C20": _c(
@@ -50,7 +51,8 @@ CLAIMS.update({
         "Static analysis with an algebraic normaliser: for every smooth Grad method the value is the op on values and "
         "dx, dy, dz equal the chain rule with symbolic seeds (sympy identity between source expressions); piecewise ops "
         "return one operand whole under a value-only condition; every Context::deriv arm equals the chain rule, zero, or "
-        "(finite ordering enumeration over the builder DSL) the selected operand's derivative; gradient interpreter loop; "
+        "(finite ordering / sign-class enumeration over the builder DSL, incl. the div_euclid emulation of Mod) the selected "
+        "operand's derivative; deriv's cache is keyed by the node being differentiated; gradient interpreter loop; "
         "Transformable for Grad; x86_64 gradient assembler dataflow.",
         "static analysis: expression-identity obligations between source expressions (sympy) + table lint + asm dataflow",
     ),
@@ -123,8 +125,9 @@ CLAIMS.update({
         "sub-cell lattice and must be geometrically consistent (hi = lo + 1 along t'; the four edge cells at "
         "(p,q),(p+1,q),(p+1,q+1),(p,q+1) in the frame's (u',v') plane), frames are right-handed cyclic rotations, dc_cell "
         "covers all 8 children / 12 faces / 6 edges, the multithreaded merge shifts leaf and branch indices by their own "
-        "prefix-sum offsets, cells are full/empty only under strict interval guards and leaf corner masks are by identity. "
-        "Manifoldness, QEF placement, collapse criteria and the generated tables are out of static reach.",
+        "prefix-sum offsets, cells are full/empty only under strict interval guards and leaf corner masks are by identity; "
+        "collapse guards (a multi-vertex child is never collapsed, a NaN gradient lane never enters the QEF and marks the leaf "
+        "with the sentinel merge refuses). Manifoldness, QEF placement and the generated tables are out of static reach.",
         "static analysis: lattice-geometry consistency of the recursive dual walk + index/guard lints",
     ),
     "C09": _c(
